@@ -35,6 +35,8 @@ class Contract:
         self.self_model = g("self_model", None)  # model of cls/self
         self.closure = g("closure", None)        # descriptors for captured variables (nested defs)
         self.assumes = g("assumes", [])          # documented assumptions (strings)
+        self.trusted = g("trusted", None)        # reason string: the contract is ASSUMED, its body is not verified
+        self.leaf_methods = g("leaf_methods", [])  # methods of a transformer modelled as the abstract leaf
         self.ghost = g("ghost", {})              # extra spec variables: name -> descriptor
         self.doc = (spec.__doc__ or "").strip()
         self.defaults = g("defaults", {})
